@@ -42,6 +42,7 @@ type Profile struct {
 	DupLabels  bool
 	NoStaleCtx bool // predicates/state blocks do not observe c.text / c.pos (avoid Q-STALE-CTX)
 	NoFFFDLit  bool // no literal contains U+FFFD (avoid Q-LIT-EOF)
+	Splice     int  // percentage of grammars led by a rule with a parenthesised group of 3-5 items inside a sequence / choice of 3-6
 	SharedLeaf int  // percentage of grammars led by a rule that uses one class-bodied leaf rule in several mergeable choices
 	TwoLR      int  // percentage of grammars made of two (or three) separate mutually left-recursive components
 	MemoPred   int  // percentage of sequences that start with an optional labelled item followed by a predicate on that label
@@ -1061,6 +1062,42 @@ func GenGrammar(p *Profile, seed int64) (rules []*Rule, blocks map[int]*Block, g
 		}
 		rules = append([]*Rule{{Name: "Sv", Expr: seq}}, rules...)
 		rules = append(rules, &Rule{Name: "V", Expr: leaf})
+	} else if p.Splice > 0 && g.pct(p.Splice) {
+		// Sp <- "a" ("b" "c" "d") "e"   or   "a" / ("b" / "c" / "d") / "e": the optimizer splices the group into the
+		// outer list; every item is a different terminal, so a lost, repeated or displaced item changes what is accepted
+		mk := func(k Kind) *Node { return g.newNode(k) }
+		pool := []string{"a", "b", "c", "0", "1", "+", "x", "A", "B", "y", "w", " "}
+		g.r.Shuffle(len(pool), func(i, j int) { pool[i], pool[j] = pool[j], pool[i] })
+		next := 0
+		term := func() *Node { n := mk(KLit); n.Lit = pool[next%len(pool)]; next++; return n }
+		kind := KSeq
+		if g.pct(50) {
+			kind = KAlt
+		}
+		outer := mk(kind)
+		olen := []int{3, 3, 5, 6}[g.r.Intn(4)]
+		at := g.r.Intn(olen)
+		for i := 0; i < olen; i++ {
+			if i == at {
+				inner := mk(kind)
+				for j := 3 + g.r.Intn(3); j > 0; j-- {
+					inner.Kids = append(inner.Kids, term())
+				}
+				outer.Kids = append(outer.Kids, inner)
+			} else {
+				outer.Kids = append(outer.Kids, term())
+			}
+		}
+		body := outer
+		if len(rules) > 0 && kind == KSeq {
+			o := mk(KOpt)
+			rf := mk(KRef)
+			rf.Ref = rules[0].Name
+			o.Kids = []*Node{rf}
+			body = mk(KSeq)
+			body.Kids = []*Node{outer, o}
+		}
+		rules = append([]*Rule{{Name: "Sp", Expr: body}}, rules...)
 	}
 	for _, r := range rules {
 		r.Expr = normalize(r.Expr)
